@@ -118,6 +118,29 @@ Definition dmultiply (a b : list factor) : out (list factor) := expect (dtry_mul
 (* Unit / BaseRepresentation multiplication: Product::mul -> canonicalize with `+` *)
 Definition pmultiply (a b : list factor) : out (list factor) := fmerge (fconcat_sorted a b).
 
+(* ---- the guarded run-time paths (after the repairs of phase 4)
+   Quantity::checked_power: every `exponent.checked_mul(&e)` is tried first (error
+   QuantityError::ExponentOverflow), then the unchecked Unit::power runs;
+   VM Multiply/Divide: the product is formed, `unit.try_canonicalized()` is tried once
+   (same error), later canonicalizations of that unit use the unchecked merge. *)
+Definition upower_guarded (fs : list factor) (e : ratio) : out (list factor) :=
+  match fmap_exp (fun m => rmul_checked m e) fs with
+  | Val _ => upower fs e
+  | Overflow => Overflow
+  | Panic => Panic
+  end.
+Definition pmultiply_guarded (a b : list factor) : out (list factor) :=
+  match ftry_merge (fconcat_sorted a b) with
+  | Val _ => pmultiply a b
+  | Overflow => Overflow
+  | Panic => Panic
+  end.
+
+(* parser: more than u16::MAX consecutive `!` is a parse error (None), so the order that
+   reaches `order.get() as u16` is never truncated *)
+Definition parse_factorial_order (bangs : Z) : option Z :=
+  if (1 <=? bangs) && (bangs <=? 65535) then Some bangs else None.
+
 (* ---------------------------------------------------------------- factorial *)
 (* parser: `order` counts the `!` characters (NonZeroUsize); compiler: `order.get() as u16` *)
 Definition order_u16 (bangs : Z) : Z := bangs mod 65536.
